@@ -578,7 +578,7 @@ type rule struct {
 
 func parseRules(c map[string]any) ([]rule, []any) {
 	var rs []rule
-	var abs []any
+	abs := []any{}
 	for _, x := range arr(c["rules"]) {
 		m := x.(map[string]any)
 		r := rule{k: m["k"].(string)}
